@@ -1,5 +1,6 @@
 import GlmVerif.Core.Exec
 import GlmVerif.Spec.All
+import GlmVerif.Core.Layout
 import Std.Data.HashMap
 /-!
 Native driver (Mathlib-free).
@@ -146,6 +147,12 @@ def candidates (n : Nat) (nonzero : Bool) (seed : UInt64) (count : Nat) : Array 
   for i in [0:n] do
     out := out.push ((Array.range n).map fun k => if k == i then 2.0 else base)
   out := out.push ((Array.range n).map fun k => (k + 1).toFloat)
+  if !nonzero then
+    -- special values: signed zeros, NaN, infinities in every position against ordinary neighbours
+    let sp : Array Float := #[0.0, -0.0, 0.0 / 0.0, 1.0 / 0.0, -1.0 / 0.0, 1.0, -1.0]
+    for a in sp do
+      for b in sp do
+        out := out.push ((Array.range n).map fun k => if k % 2 == 0 then a else b)
   out := out.push ((Array.range n).map fun k => ((k * 7 + 3) % 11 + 1).toFloat)
   let mut s := seed
   for _ in [0:count] do
@@ -158,6 +165,9 @@ def candidates (n : Nat) (nonzero : Bool) (seed : UInt64) (count : Nat) : Array 
       xs := xs.push (if nonzero && vF == 0.0 then 3.0 else vF)
     out := out.push xs
   return out
+
+/-- "different result": different bit patterns, NaNs identified (so +0 vs -0 counts, as C01 demands) -/
+def differs (m s : Float) : Bool := m.toBits != s.toBits && !(m.isNaN && s.isNaN)
 
 def spec (prop unitsPath : String) (seed : UInt64) : IO UInt32 := do
   let text ← IO.FS.readFile unitsPath
@@ -189,11 +199,23 @@ def spec (prop unitsPath : String) (seed : UInt64) : IO UInt32 := do
           for j in [0:f.nOut ks] do
             if found then break
             if !f.treeMode && !f.guard && f.compOK ks o j then continue
-            let m := if f.treeMode then (u.out j).eval f64Ops env
-                     else if u.leafOuts.isSome then (f.post ks o j).eval f64Ops env else (u.out j).eval f64Ops env
-            let s := if f.treeMode then (f.specT ks j).eval f64Ops env else (f.spec ks j).eval f64Ops env
+            let isInt := u.ty != .r
+            let evI (t : Tree) : Float :=
+              if u.ty == .u32 then (t.eval u32Ops (fun i => (Float.toUInt32 (xs.getD i 0.0 + 4294967296.0)))).toFloat
+              else Float.ofInt (t.eval i32Ops (fun i => (xs.getD i 0.0).toInt32)).toInt
+            let mT : Tree := if f.treeMode then u.out j else if u.leafOuts.isSome then .leaf (f.post ks o j) else u.out j
+            let sT : Tree := if f.treeMode then f.specT ks j else .leaf (f.spec ks j)
+            let m := if isInt then evI mT else mT.eval f64Ops env
+            let s := if isInt then evI sT else sT.eval f64Ops env
+            if isInt then
+              if !(m == s) then
+                found := true
+                cex := cex + 1
+                let toU (x : Float) : Nat := ((x.toInt64).toInt32).toUInt32.toNat
+                IO.println s!"CEX {name} comp {j} in {xs.map toU} model {toU m} spec {toU s} fam {f.name} plain {f.isPlain || f.treeMode} int"
+              continue
             let isFrac := f.kind == .frac || f.kind == .fracMod
-            if !(m == s) && !(m.isNaN && s.isNaN) && !(isFrac && (m.isNaN || m.isInf || s.isNaN || s.isInf)) then
+            if (if f.treeMode || f.kind == .syn then differs m s else !(m == s) && !(m.isNaN && s.isNaN)) && !(isFrac && (m.isNaN || m.isInf || s.isNaN || s.isInf)) then
               found := true
               cex := cex + 1
               IO.println s!"CEX {name} comp {j} in {xs.map (·.toBits)} model {m.toBits} spec {s.toBits} fam {f.name} plain {f.isPlain || f.treeMode}"
@@ -218,7 +240,7 @@ def spec (prop unitsPath : String) (seed : UInt64) : IO UInt32 := do
                 if found then break
                 let mv := (u.out i).eval f64Ops env
                 let sv := (s.rename (Spec.C01.sigma m L i)).eval f64Ops env
-                if !(mv == sv) && !(mv.isNaN && sv.isNaN) then
+                if differs mv sv then
                   found := true
                   cex := cex + 1
                   IO.println s!"CEX {name} comp {i} in {xs.map (·.toBits)} model {mv.toBits} spec {sv.toBits}"
@@ -238,8 +260,28 @@ def postval (prop unit : String) (comp : Nat) (ins outs : Array Float) : IO UInt
         IO.println s!"POSTVAL {f.name} glm {g.toBits} spec {s.toBits}"
   return 0
 
+/-- C16: evaluate the layout contract natively on the probe output and list the offending rows -/
+def layout (rowsPath : String) : IO UInt32 := do
+  let text ← IO.FS.readFile rowsPath
+  let mut n := 0
+  let mut bad := 0
+  for line in text.splitOn "\n" do
+    if line.startsWith "ROW" then
+      match Glm.Layout.parseRow line with
+      | some r =>
+        n := n + 1
+        if !r.ok then
+          bad := bad + 1
+          if bad ≤ 20 then IO.println s!"BADROW {line.drop 4}"
+      | none => bad := bad + 1; IO.println s!"BADROW unparsable {line}"
+    else if line.startsWith "FAIL" then
+      bad := bad + 1; IO.println s!"BADROW probe {line}"
+  IO.println s!"LAYOUT rows={n} bad={bad}"
+  return (if bad == 0 then 0 else 1)
+
 def main (args : List String) : IO UInt32 := do
   match args with
+  | ["layout", p] => layout p
   | "postval" :: prop :: unit :: comp :: rest =>
     let ins := (rest.takeWhile (· ≠ "--")).toArray.map fun t => Float.ofBits (t.toNat?.getD 0).toUInt64
     let outs := ((rest.dropWhile (· ≠ "--")).drop 1).toArray.map fun t => Float.ofBits (t.toNat?.getD 0).toUInt64
